@@ -4,7 +4,7 @@ import traceback
 
 from . import base
 
-MODULES = ['flags', 'chain', 'core', 'globc', 'matchc', 'walkc', 'more', 'fsmatch', 'small', 'iterc', 'splitc', 'parserc']
+MODULES = ['flags', 'chain', 'core', 'globc', 'matchc', 'walkc', 'more', 'fsmatch', 'small', 'iterc', 'splitc', 'parserc', 'helpersc']
 
 
 def all_contracts():
